@@ -348,10 +348,18 @@ def run(ctx):
         small = [n for n in allt if E[n]["nPe"] <= 8 or n in ("TETRA10",)]
         plan = {"exact_mass": [n for n in allt if n not in big], "exact_th2": small, "exact_el2": [n for n in small if E[n]["dim"] >= 2],
                 "exact_elD": [], "exact_thD": []}
+    # exact integer certificates L*A_Z = d*I (statement over the REALS); heavier: small types only
+    if ctx.tier == "thorough":
+        plan.update({"exactR_mass": [n for n in allt if E[n]["nPe"] <= 10], "exactR_th2": [n for n in allt if E[n]["nPe"] <= 10],
+                     "exactR_el2": [n for n in ("TRI3", "TRI6", "QUAD4", "QUAD8", "TETRA4", "PRISM6", "HEXA8") if n in E]})
+    else:
+        plan.update({"exactR_mass": [n for n in ("SEG2", "SEG3", "SEG4", "TRI3", "TRI6", "QUAD4", "TETRA4", "PRISM6") if n in E],
+                     "exactR_th2": [n for n in ("SEG2", "SEG3", "TRI3", "TRI6", "QUAD4", "TETRA4", "PRISM6") if n in E],
+                     "exactR_el2": [n for n in ("TRI3", "QUAD4", "TETRA4", "PRISM6") if n in E]})
     W("Gen_ExactPlan.v", "(* GENERATED: element types whose rank statements are re-proved with exact rational certificates in this tier *)\n"
       "From Coq Require Import List String.\nImport ListNotations. Open Scope string_scope.\n" +
       "".join("Definition %s : list string := [%s].\n" % (k, "; ".join('"%s"' % n for n in v)) for k, v in plan.items()))
-    ctx.copy_props("C02/C02_exact.v")
+    ctx.copy_props("C02/C02_exact.v", "C02/C02_exactR.v")
     ctx.cov["exact_rational_certificates"] = plan
     if os.path.exists(os.path.join(ctx.build, "C02_rank.vo")):
         ctx.coq(["Gen_ExactPlan.v"], timeout=60, count=False)
@@ -365,6 +373,12 @@ def run(ctx):
         if f in resA and not resA[f].ok:
             proofs_ok = False
             report_broken(f, resA[f])
+    if os.path.exists(os.path.join(ctx.build, "C02_exact.vo")):
+        rxr = ctx.coq(["C02_exactR.v"], timeout=2400)
+        if not rxr.ok:
+            proofs_ok = False
+            ctx.violation("proof-broken:C02_exactR.v", "C02_exactR.v: an exact integer kernel certificate (statement over R) no longer checks for a planned element type: " + ((rxr.log.strip().splitlines() or ["?"])[-1][:200]),
+                          {"obligation": "C02_exactR.v", "log": rxr.log[-3000:], "plan": plan}, found_input=False)
     rb = resA.get("C02_beam.v")
     if rb is not None and not rb.ok:
         # exact search: a rational fibre direction / user axis for which the stored axis is not orthogonal
